@@ -480,7 +480,7 @@ OUT:
 }
 
 /* ------------------------------------------------------------ family plumbing */
-static int o_depth, o_reduced, o_sandwich, o_binv, o_verd;
+static int o_depth, o_reduced, o_sandwich, o_binv, o_verd, o_cont;
 void c13_check_basis (mpq_QSprob p, const RefLP * L, const char *ctx);
 void c12_check_current_basis (mpq_QSprob p, const RefLP * L, const char *ctx);
 static Trans *alpha; static int nalpha;
@@ -503,6 +503,7 @@ static void hist_init (void)
 	if (o_pat[0]) { o_depth = (int) strlen (o_pat); if (o_depth > 8) { fprintf (stderr, "hist: pat too long\n"); exit (2); } for (const char *c = o_pat; *c; c++) if (!strchr ("SAW", *c)) { fprintf (stderr, "hist: pat uses S, A, W\n"); exit (2); } }
 	for (int i = 0; i < nalpha; i++) if (alpha[i].op == OP_WRITE_BASIS) idx_write_basis = i;
 	if ((o_sandwich == 2 || strchr (o_pat, 'W')) && idx_write_basis < 0) { fprintf (stderr, "hist: sandwich=2 needs write_basis in the alphabet\n"); exit (2); }
+	o_cont = (int) opt_int ("cont", 0);
 	o_binv = (int) opt_int ("binv", 0);      /* after every OPTIMAL solve: B^-1 and tableau rows must multiply back (C13) */
 	o_verd = (int) opt_int ("verd", 0);      /* after every step: the verdict functions on the problem's own basis (C12) */
 	if (opt_int ("printalpha", 0)) { for (int i = 0; i < nalpha; i++) fprintf (stderr, "%d %s#%d\n", i, opdefs[alpha[i].op].name, alpha[i].var); }
@@ -598,7 +599,8 @@ static void hist_run (long item)
 				if (strstr (why, "get_nzcount")) snprintf (sig, sizeof sig, "nzcount:%s", opdefs[seq[i].op].name);
 				viol ("C06", sig, "queries disagree with the model after the last call: %s [history: %s]", why, S.desc.s);
 			} else STAT ("prefix_violation_skipped");
-			stop = 1; break;
+			if (last || !o_cont) { stop = 1; break; }
+			/* cont=1: go on - what the solver answers afterwards is still judged against the problem the caller built */
 		}
 		if (o_binv && is_solve (seq[i].op) && S.last && !S.last->rval && S.last->status == QS_LP_OPTIMAL && S.M->n + S.M->m <= 30) {
 			c13_check_basis (S.p, S.M, S.desc.s);
@@ -746,7 +748,7 @@ static int iv_nvar (int id)
 	case IV_DELETE_COL: case IV_CHANGE_OBJ: case IV_CHANGE_BOUND_IDX: case IV_GET_BOUND_IDX: case IV_CHANGE_COEF_COL: case IV_GET_COEF_COL: case IV_ADD_ROW_BADCOL: case IV_ADD_RANGED_ROW_BADCOL: return NCOLBAD;
 	case IV_ADD_COL_BADROW: return NROWBAD;
 	case IV_DELETE_COLS: case IV_CHANGE_BOUNDS_IDX: case IV_GET_BOUNDS_LIST: case IV_GET_OBJ_LIST: case IV_GET_COLUMNS_LIST: case IV_ADD_ROWS_BADCOL: case IV_ADD_COLS_BADROW: case IV_PIVOTIN_COL: return NLISTBAD;
-	case IV_NAMES: return 22;
+	case IV_NAMES: return 24;
 	case IV_SELECTORS: return 12;
 	case IV_PARAMS: return 13;
 	case IV_BASIS: return 14 + 9;
@@ -877,6 +879,13 @@ static int do_invalid (HState * S, int id, int v, int *skip, int *lookup, char *
 		case 18: snprintf (what, wl, "mpq_QSdelete_named_column(p,NULL)"); rv = mpq_QSdelete_named_column (p, NULL); break;
 		case 19: snprintf (what, wl, "mpq_QSget_named_x(p,NULL,&v)"); rv = mpq_QSget_named_x (p, NULL, &out[0]); break;
 		case 20: snprintf (what, wl, "mpq_QSget_row_index(p,NULL,&i)"); idx = 0; rv = mpq_QSget_row_index (p, NULL, &idx); *lookup = 1; if (!rv && idx == -1) rv = -1; break;
+		case 22: case 23: {
+			/* a duplicate pair behind an unnamed entry of the same batch (columns / rows) */
+			int cnt[3] = { 0, 0, 0 }, beg[3] = { 0, 0, 0 }; const char *l3[3] = { NULL, "twin3", "twin3" }; char sn[3] = { 'L', 'L', 'L' };
+			if (v == 22) { snprintf (what, wl, "mpq_QSadd_cols(p,3,..,{NULL,\"twin3\",\"twin3\"}) duplicate behind an unnamed entry"); rv = mpq_QSadd_cols (p, 3, cnt, beg, ind, val, val, out, out2, l3); }
+			else { snprintf (what, wl, "mpq_QSadd_rows(p,3,..,{NULL,\"twin3\",\"twin3\"}) duplicate behind an unnamed entry"); rv = mpq_QSadd_rows (p, 3, cnt, beg, ind, val, val, sn, l3); }
+			break;
+		}
 		default: { int cnt[2] = { 0, 0 }, beg[2] = { 0, 0 }; l2[0] = "twinc"; l2[1] = "twinc"; snprintf (what, wl, "mpq_QSadd_cols(p,2,..,{\"twinc\",\"twinc\"}) duplicate within call"); rv = mpq_QSadd_cols (p, 2, cnt, beg, ind, val, val, out, out2, l2); break; }
 		}
 		break;
